@@ -190,11 +190,12 @@ def c18(tier):
     import json, re
     c = _topo("C18", 18, tier, 80, 2400)
     c.level = "fault_enumeration"
-    c.rule = ("one evaluation = one run of 3-8 snap_load ops; each op extracts nothing new but picks one bundled snapshot (42 Linux sysfs/procfs trees, "
+    c.rule = ("one evaluation = one run of 3-8 snap_load ops; each op picks one bundled snapshot (42 Linux sysfs/procfs trees, "
               "29 x86 CPUID dumps, 2 x86+linux pairs; uniformly), one applicable HWLOC_COMPONENTS selection (linux,stop | x86,stop | for pairs also "
               "x86,linux,stop / linux,x86,stop), a per-type filter assignment, a flag subset, optionally the tuning variables the test suite "
               "uses for that snapshot, a readdir order (sorted, or a seeded permutation in 1/4 of the ops) and a removal set of 0 (1/4), 1-3 (1/2) "
-              "or 4-40 (1/4) removable paths (regular files, symlinks, directories whose name does not end in a digit) that are renamed away "
+              "or 4-40 (1/4) removable paths (regular files, symlinks, directories whose name does not end in a digit; for CPUID dumps half of "
+              "the non-empty sets are dropped again because any removal but the last pu file makes hwloc reject the dump) that are renamed away "
               "for the duration of the loads and always put back; oracles per op: load returns 0 or -1 (after -1 the untouched snapshot must "
               "load on a fresh topology), WF + read-only battery, second load byte-identical in the canonical dump, INCLUDE_DISALLOWED view "
               "contains every PU/NUMA node of the default view and its allowed sets equal the default root sets, the topology reloaded from "
@@ -205,11 +206,12 @@ def c18(tier):
               "directory makes the x86 back-end execute the host's CPUID instruction: such loads are judged by return value, WF and battery only "
               "and nothing of their result enters the event log (probe snap_cpuid_dump_rejected_host_cpuid_used). thorough tier only: snap_enum ops "
               "sweep, a chunk per op, ALL single and pairwise removals under sys/devices/system of the snapshots with fewer than 400 removable "
-              "paths there (return value, reload after failure, WF + battery); the swept part is reported in coverage.fault_enumeration "
-              "(done/space per snapshot class, exhaustive = every element of the space was executed in this batch)")
+              "paths there (return value, reload after failure, WF; the full read-only battery on every single removal and on a seeded eighth of the pairs); the swept part is reported in coverage.fault_enumeration "
+              "(distinct elements executed / size of the space, per snapshot; exhaustive = every element of the space was executed in this batch)")
     c.real_components = ["hwloc/topology-linux.c, topology-x86.c, topology-hardwired.c, pci-common.c, components.c, topology.c and the rest of "
                          "hwloc compiled from the /repo working tree (ASan+UBSan, asserts on): real discovery code",
-                         "files: the bundled tarballs of tests/hwloc/{linux,x86,x86+linux} extracted per worker process on tmpfs; real "
+                         "files: the bundled tarballs of tests/hwloc/{linux,x86,x86+linux} extracted on tmpfs (one read-only master per batch; every worker "
+                         "process loads removal sets from a private tree whose directories are its own and whose files/symlinks are hard links to the master); real "
                          "open/openat/read/readlink/stat on real files; removal = real rename() out of the tree and back",
                          "libc, libxml2 (XML restart)"]
     c.stubbed_components = ["readdir ORDER: decided by the simulator (entries of every directory are drained, then served sorted by name or in "
@@ -225,6 +227,11 @@ def c18(tier):
 
     def execute():
         rc = base_execute()
+        # the shared master copy of the extracted tarballs (hwsim/topo/ops_snapshot.cc) is named after this process
+        import shutil
+        sb = os.environ.get("HWSIM_SCRATCH", "/dev/shm")
+        for base in (sb, os.environ.get("TMPDIR", "/tmp")):
+            shutil.rmtree(os.path.join(base, "hwsim.%d.snapmaster" % os.getpid()), ignore_errors=True)
         path = os.path.join(os.environ.get("HWSIM_EVIDENCE_DIR", os.path.join(os.path.dirname(os.path.dirname(os.path.abspath(__file__))), "evidence")), "C18.json")
         try:
             with open(path) as f:
@@ -240,15 +247,24 @@ def c18(tier):
                 space[m.group(1)] = int(m.group(2))
                 del cnt[k]
         ds = cov.get("distinct_sets", {})
-        s1 = sum(space.values())
-        s2 = sum(n * (n - 1) // 2 for n in space.values())
-        d1 = ds.get("enum_single", {}).get("count", 0)
-        d2 = ds.get("enum_pair", {}).get("count", 0)
+        per = {}
+        for name, n in sorted(space.items()):
+            key = re.sub(r"[^A-Za-z0-9]", "_", name)
+            d1 = ds.pop("enumS-" + key, {}).get("count", 0)
+            d2 = ds.pop("enumP-" + key, {}).get("count", 0)
+            per[name] = {"removable_paths_under_sys_devices_system": n,
+                         "single": {"space": n, "distinct_done": d1, "exhaustive": d1 == n},
+                         "pairwise": {"space": n * (n - 1) // 2, "distinct_done": d2, "exhaustive": d2 == n * (n - 1) // 2}}
+        s1 = sum(v["single"]["space"] for v in per.values())
+        s2 = sum(v["pairwise"]["space"] for v in per.values())
+        d1 = sum(v["single"]["distinct_done"] for v in per.values())
+        d2 = sum(v["pairwise"]["distinct_done"] for v in per.values())
         cov["fault_enumeration"] = {
-            "what": "removals under sys/devices/system of the snapshots with < 400 removable paths there that were reached in this batch",
-            "snapshots": space,
-            "single": {"space": s1, "distinct_done": d1, "exhaustive": bool(space) and d1 == s1},
-            "pairwise": {"space": s2, "distinct_done": d2, "exhaustive": bool(space) and d2 == s2},
+            "what": "all single and all pairwise removals under sys/devices/system of every snapshot with < 400 removable paths there "
+                    "(thorough tier; chunks are drawn by the run seeds, so coverage is counted, not assumed)",
+            "single": {"space": s1, "distinct_done": d1, "exhaustive": bool(per) and d1 == s1},
+            "pairwise": {"space": s2, "distinct_done": d2, "exhaustive": bool(per) and d2 == s2},
+            "snapshots": per,
         }
         with open(path, "w") as f:
             json.dump(ev, f, indent=1, sort_keys=False)
